@@ -58,38 +58,39 @@ where
         let config = Arc::clone(&self.config);
         let rng = Arc::clone(&self.rng);
 
-        Box::pin(async move {
-            let mut should_inject_latency = false;
-            let mut latency_duration = Duration::ZERO;
-            let mut error_roll: f64 = 1.0; // Default to no error injection
+        // Decide now, in the order in which requests are made: with a seed the decisions must be a
+        // function of the seed and the order of requests, not of the order in which the returned
+        // futures happen to be polled.
+        let mut should_inject_latency = false;
+        let mut latency_duration = Duration::ZERO;
+        let mut error_roll: f64 = 1.0; // Default to no error injection
+        {
+            let mut rng = rng.lock().unwrap();
 
-            // Determine what chaos to inject
-            {
-                let mut rng = rng.lock().unwrap();
-
-                // Check if we should inject an error
-                if config.error_injector.error_rate() > 0.0 {
-                    error_roll = rng.random();
-                }
-
-                // Check if we should inject latency (only if not injecting error)
-                if config.latency_rate > 0.0 && error_roll >= config.error_injector.error_rate() {
-                    let latency_roll: f64 = rng.random();
-                    should_inject_latency = latency_roll < config.latency_rate;
-
-                    if should_inject_latency {
-                        let min_ms = config.min_latency.as_millis() as u64;
-                        let max_ms = config.max_latency.as_millis() as u64;
-                        let delay_ms = if max_ms > min_ms {
-                            rng.random_range(min_ms..=max_ms)
-                        } else {
-                            min_ms
-                        };
-                        latency_duration = Duration::from_millis(delay_ms);
-                    }
-                }
+            // Check if we should inject an error
+            if config.error_injector.error_rate() > 0.0 {
+                error_roll = rng.random();
             }
 
+            // Check if we should inject latency (only if not injecting error)
+            if config.latency_rate > 0.0 && error_roll >= config.error_injector.error_rate() {
+                let latency_roll: f64 = rng.random();
+                should_inject_latency = latency_roll < config.latency_rate;
+
+                if should_inject_latency {
+                    let min_ms = config.min_latency.as_millis() as u64;
+                    let max_ms = config.max_latency.as_millis() as u64;
+                    let delay_ms = if max_ms > min_ms {
+                        rng.random_range(min_ms..=max_ms)
+                    } else {
+                        min_ms
+                    };
+                    latency_duration = Duration::from_millis(delay_ms);
+                }
+            }
+        }
+
+        Box::pin(async move {
             // Check if error injection should happen
             if let Some(err) = config.error_injector.inject_error(&req, error_roll) {
                 let event = ChaosEvent::ErrorInjected {
